@@ -77,8 +77,25 @@ static void add_alias(int i) {
   free(roots); lp_upolynomial_delete(g); lp_upolynomial_delete(e);
 }
 
+/* a number that is secretly the dyadic N/2^k: root of (2^k x - N)(x^2 + 1), kept as a proper algebraic number */
+static long hid_N; static unsigned hid_k; static int hid_slot;
+static int add_hidden_dyadic(void) {
+  hid_k = 22 + rnd(18); hid_N = (long)((3ul << (hid_k - 2)) + 1 + 2 * rnd(1000));     /* odd, about 3/4 */
+  long c1[2] = { -hid_N, 1L << hid_k }, c2[3] = { 1, 0, 1 };
+  lp_upolynomial_t* f1 = lp_upolynomial_construct_from_long(lp_Z, 1, c1);
+  lp_upolynomial_t* f2 = lp_upolynomial_construct_from_long(lp_Z, 2, c2);
+  lp_upolynomial_t* f = lp_upolynomial_mul(f1, f2);
+  lp_algebraic_number_t roots[3]; size_t n = 0;
+  lp_upolynomial_roots_isolate(f, roots, &n);
+  int idx = -1;
+  if (n == 1) { lp_value_t v; lp_value_construct(&v, LP_VALUE_ALGEBRAIC, &roots[0]); idx = track_value(&v, 0); lp_value_destruct(&v); }
+  for (size_t i = 0; i < n; ++i) lp_algebraic_number_destruct(&roots[i]);
+  lp_upolynomial_delete(f); lp_upolynomial_delete(f1); lp_upolynomial_delete(f2);
+  return idx;
+}
+
 static void build(void) {
-  nt = 0;
+  nt = 0; hid_slot = -1;
   M = lp_assignment_new(hp_db);
   add_roots(hblocks[rnd(NHBLOCKS)]);
   add_roots(hblocks[rnd(NHBLOCKS)]);
@@ -86,12 +103,15 @@ static void build(void) {
   add_rational(rnd_in(-5, 5), 1 + rnd(4), chance(60));
   if (chance(60)) add_rational(rnd_in(-9, 9), 1ul << rnd(4), chance(50));
   if (chance(70)) add_alias(rnd(nt));
+  int hid = chance(45) ? add_hidden_dyadic() : -1;
   /* assignment x0, x1, x2 := copies of pool values */
   int np = nt;
   for (int k = 0; k < 3 && nt < MAXT; ++k) {
     int src = rnd(np);
+    if (k == 2 && hid >= 0) { src = hid; hid_slot = 2; }
     for (int t = 0; t < 20 && alg_degree(&T[src].v) > (k == 0 ? 3 : 2); ++t) src = rnd(np);   /* keep the eliminations small */
     if (alg_degree(&T[src].v) > 3) src = np - 1;
+    if (k == 2 && hid >= 0) src = hid;
     lp_assignment_set_value(M, hp_x[k], &T[src].v);
     tracked* t = &T[nt]; t->live = 1; t->in_assignment = 1; t->x = hp_x[k];
     t->last = tok_of(lp_assignment_get_value(M, hp_x[k]));
@@ -195,6 +215,17 @@ static void one_op(void) {
       int others = 0; for (int k = 0; k < nt; ++k) if (T[k].live && !T[k].in_assignment) ++others;
       if (others > 3) { lp_value_destruct(&T[i].v); T[i].live = 0; }
     }
+  } else if (op < 84 && hid_slot >= 0) {
+    /* a polynomial that vanishes at the hidden dyadic value: forces the zero test to bisect onto the exact point */
+    name = "poly_vanish";
+    lp_integer_t num, den; lp_integer_construct_from_int(lp_Z, &num, hid_N); lp_integer_construct_from_int(lp_Z, &den, 1);
+    lp_integer_mul_pow2(lp_Z, &den, &den, hid_k);
+    lp_polynomial_t* dx = lp_polynomial_alloc(); lp_polynomial_construct_simple(dx, hp_ctx[0], &den, hp_x[hid_slot], 1);
+    lp_polynomial_t* nn = lp_polynomial_alloc(); lp_polynomial_construct_simple(nn, hp_ctx[0], &num, hp_x[hid_slot], 0);
+    lp_polynomial_t* p = lp_polynomial_new(hp_ctx[0]); lp_polynomial_sub(p, dx, nn);
+    if (chance(50)) (void)lp_polynomial_sgn(p, M); else { lp_value_t* v = lp_polynomial_evaluate(p, M); lp_value_delete(v); }
+    lp_polynomial_delete(p); lp_polynomial_delete(dx); lp_polynomial_delete(nn);
+    lp_integer_destruct(&num); lp_integer_destruct(&den);
   } else if (op < 86) {
     name = "poly_sgn";
     lp_polynomial_t* p = hist_poly(0);
